@@ -48,6 +48,13 @@ OPS_DATA = '{"send1", "recv1", "snw1", "rnw1"}'
 OPS_CLOSE = '{"send1", "send2", "recv1", "recv2", "clS1", "clS2", "clR1", "clR2", "cloneS1", "cloneR1"}'
 
 CONFIGS = [
+    # two (three) blocked receivers, cancellations and sends from a callback in the same cycle
+    ModelCfg("m-n2o1e3-rr", consts(2, 1, 3, '{"recv1"}', 0, env='{"cancel", "native", "esend"}'), emit=True,
+             check=False, replay_kw=kw(0)),
+    ModelCfg("m-n3o1e3-rr", consts(3, 1, 3, '{"recv1"}', 1, env='{"cancel", "esend"}'), emit=True,
+             check=False, replay_kw=kw(1), max_scenarios=4000),
+    ModelCfg("m-n2o1e3-ss", consts(2, 1, 3, '{"send1"}', 0, env='{"cancel", "erecv"}'), emit=True,
+             check=False, replay_kw=kw(0)),
     ModelCfg("m-n2o2e1-b0", consts(2, 2, 1, OPS1, 0), emit=True, check=False, replay_kw=kw(0),
              max_scenarios=5000),
     ModelCfg("m-n2o2e1-b1", consts(2, 2, 1, OPS1, 1), emit=True, check=False, replay_kw=kw(1),
